@@ -343,6 +343,26 @@ func (t *FnTrans) resolve(T types.Type) types.Type {
 	return T
 }
 
+// ghostSort: sort of a ghost field of (an instantiation of) a generic type: occurrences of the type's
+// parameters in the declared sort (as K or U_K) denote the sort of the actual type argument.
+func (t *FnTrans) ghostSort(raw string, T types.Type) string {
+	n, ok := derefNamed(t.resolve(T))
+	if !ok || n.TypeArgs() == nil || n.TypeArgs().Len() == 0 {
+		return raw
+	}
+	tps := n.Origin().TypeParams()
+	out := raw
+	for i := 0; i < tps.Len() && i < n.TypeArgs().Len(); i++ {
+		name := tps.At(i).Obj().Name()
+		actual := t.sortOf(n.TypeArgs().At(i))
+		re := regexp.MustCompile(`(^|[ ()])(?:U_)?` + regexp.QuoteMeta(name) + `($|[ ()])`)
+		for k := 0; k < 3; k++ {
+			out = re.ReplaceAllString(out, "${1}"+actual+"${2}")
+		}
+	}
+	return out
+}
+
 // typeParam: a type parameter of the function (or of its receiver type) by name.
 func (t *FnTrans) typeParam(name string) types.Type {
 	if tps := t.fn.TypeParams(); tps != nil {
